@@ -1,0 +1,87 @@
+//go:build verif
+
+package s2
+
+import (
+	"math/big"
+
+	"github.com/golang/geo/r3"
+	"github.com/golang/geo/s1"
+)
+
+// This file exports unexported stages of the library to external verification
+// harnesses. It only adds names; it changes no behaviour.
+
+// Orientation predicate stages.
+func VerifTriageSign(a, b, c Point) Direction    { return triageSign(a, b, c) }
+func VerifStableSign(a, b, c Point) Direction    { return stableSign(a, b, c) }
+func VerifExpensiveSign(a, b, c Point) Direction { return expensiveSign(a, b, c) }
+func VerifExactSign(a, b, c Point, perturb bool) Direction {
+	return exactSign(a, b, c, perturb)
+}
+
+// Distance predicate stages.
+func VerifTriageCompareCosDistances(x, a, b Point) int  { return triageCompareCosDistances(x, a, b) }
+func VerifTriageCompareSin2Distances(x, a, b Point) int { return triageCompareSin2Distances(x, a, b) }
+func VerifExactCompareDistances(x, a, b Point) int {
+	return exactCompareDistances(r3.PreciseVectorFromVector(x.Vector),
+		r3.PreciseVectorFromVector(a.Vector), r3.PreciseVectorFromVector(b.Vector))
+}
+func VerifSymbolicCompareDistances(x, a, b Point) int { return symbolicCompareDistances(x, a, b) }
+func VerifTriageCompareCosDistance(x, y Point, r2 float64) int {
+	return triageCompareCosDistance(x, y, r2)
+}
+func VerifTriageCompareSin2Distance(x, y Point, r2 float64) int {
+	return triageCompareSin2Distance(x, y, r2)
+}
+func VerifExactCompareDistance(x, y Point, r s1.ChordAngle) int {
+	return exactCompareDistance(r3.PreciseVectorFromVector(x.Vector),
+		r3.PreciseVectorFromVector(y.Vector), big.NewFloat(float64(r)).SetPrec(big.MaxPrec))
+}
+func VerifTriageSignDotProd(a, b Point) int { return triageSignDotProd(a, b) }
+
+// Intersection stages.
+func VerifIntersectionStable(a0, a1, b0, b1 Point) (Point, bool) {
+	return intersectionStable(a0, a1, b0, b1)
+}
+func VerifIntersectionExact(a0, a1, b0, b1 Point) Point { return intersectionExact(a0, a1, b0, b1) }
+
+// VerifClippedShape is a read-only copy of one clipped shape of an index cell.
+type VerifClippedShape struct {
+	ShapeID        int32
+	ContainsCenter bool
+	Edges          []int
+}
+
+// VerifIndexCell is a read-only copy of one index cell.
+type VerifIndexCell struct {
+	ID     CellID
+	Shapes []VerifClippedShape
+}
+
+// VerifIndexCells returns a copy of the index contents in iteration order,
+// after applying pending updates exactly as any query does.
+func VerifIndexCells(s *ShapeIndex) []VerifIndexCell {
+	var out []VerifIndexCell
+	for it := s.Iterator(); !it.Done(); it.Next() {
+		c := VerifIndexCell{ID: it.CellID()}
+		for _, cs := range it.IndexCell().shapes {
+			if cs == nil {
+				continue
+			}
+			c.Shapes = append(c.Shapes, VerifClippedShape{
+				ShapeID:        cs.shapeID,
+				ContainsCenter: cs.containsCenter,
+				Edges:          append([]int(nil), cs.edges...),
+			})
+		}
+		out = append(out, c)
+	}
+	return out
+}
+
+// VerifLoopIndex returns the loop's internal index.
+func VerifLoopIndex(l *Loop) *ShapeIndex { return l.index }
+
+// VerifPolygonIndex returns the polygon's internal index.
+func VerifPolygonIndex(p *Polygon) *ShapeIndex { return p.index }
